@@ -15,6 +15,7 @@ from ..install import ctx as _ctx
 from ..bootstrap import smod
 
 NEEDS_NATIVE = True
+REPO_TESTS_UNDER_CONTRACTS = True
 RULE = ('cases = (data kind, real/complex, N in 16..1024, NW in {1.5,2,2.5,3,3.5,4}, k in 1..floor(2NW), '
         'NFFT >= N even/odd or default, method in {unity, eigen, adapt}, function | class | precomputed '
         'tapers); non-trivial when k >= 2; distinct = distinct descriptor')
